@@ -13,6 +13,7 @@ RULE = ('case = (strategy, MIN_TIMESTAMP_LAG, update/create limits, MAX_UPDATES_
         'the stop arrived while >=1 datapoint was cached or the writer was asleep; distinct = distinct interleavings per workload')
 RULE_MORE = (' Further families: damaged files (every write to a set of series raises) with a burst over all series right before the stop; cache queries for absent series; timestamps outside any calendar; TokenBucket lines are scheduling points when an update limit is set.')
 RULE_MORE = RULE_MORE + " Round 11: live edits of storage-schemas.conf (valid and broken) with the WriterService's reload tasks coming round on the reactor thread; faults carrying an errno."
+RULE_MORE = RULE_MORE + ' Round 12: series whose tag part does not parse (accepted under the name they came with).'
 RULE = RULE + RULE_MORE
 EXHAUSTIVE = {'quick': True, 'thorough': True}
 EXHAUSTIVE_OVER = 'all single-preemption placements (stop/last store vs every writer line step) of every generated workload'
